@@ -230,6 +230,17 @@ impl Identity {
     pub(crate) fn ingredient_index(&self) -> IngredientIndex {
         self.ingredient_index
     }
+
+    /// Verification hook: an identity from plain numbers.
+    #[cfg(feature = "verif")]
+    #[allow(dead_code)]
+    pub(crate) fn verif_new(ingredient: u32, hash: u64, disambiguator: u32) -> Self {
+        Identity {
+            ingredient_index: IngredientIndex::new(ingredient),
+            hash,
+            disambiguator: Disambiguator(disambiguator),
+        }
+    }
 }
 
 /// Stores the data that (almost) uniquely identifies a tracked struct.
